@@ -58,8 +58,27 @@ func anyRouter(*http.Request, *types.Context) bool { return true }
 // 前一个对象返回的实例将作为下一个对象的输入参数。
 func AndMatcher(m ...Matcher) Matcher {
 	return MatcherFunc(func(r *http.Request, ctx *types.Context) bool {
+		// Matcher 要求返回 false 时不能修改参数。前面的对象匹配时可能已经修改了
+		// r 和 ctx，之后的对象不匹配时，需要恢复到调用之前的状态。
+		path := r.URL.Path
+		ps := make(map[string]string, ctx.Count())
+		ctx.Range(func(k, v string) { ps[k] = v })
+
 		for _, mm := range m {
 			if !mm.Match(r, ctx) {
+				r.URL.Path = path
+				added := make([]string, 0, ctx.Count())
+				ctx.Range(func(k, _ string) {
+					if _, found := ps[k]; !found {
+						added = append(added, k)
+					}
+				})
+				for _, k := range added {
+					ctx.Delete(k)
+				}
+				for k, v := range ps {
+					ctx.Set(k, v)
+				}
 				return false
 			}
 		}
